@@ -68,6 +68,20 @@ fn lifecycle(w: &World, rec: &LogRec, acc: &mut Acc) -> Vec<Finding> {
             if revived.len() >= 2 {
                 acc.count("lifecycle.several_entries_revived_by_one_request");
             }
+            // groups that two or more of the revived entries were direct members of
+            {
+                let mut per_group: BTreeMap<Uuid, usize> = BTreeMap::new();
+                for x in &revived {
+                    for g in mon::uuids_of(&prev.entries[x], "recycled_directmemberof") {
+                        if now.entries.get(&g).map(srv::is_live).unwrap_or(false) {
+                            *per_group.entry(g).or_default() += 1;
+                        }
+                    }
+                }
+                if per_group.values().any(|n| *n >= 2) {
+                    acc.count("lifecycle.live_group_shared_by_several_revived_entries");
+                }
+            }
             for x in &revived {
                 let bx = state(prev, x);
                 if bx != "recycled" {
@@ -233,11 +247,106 @@ pub fn c26(args: Args) {
         after_op_async: &|w, rec| Box::pin(async move { visibility(w, rec).await }),
         at_end_async: &|_w| Box::pin(async move { Vec::new() }),
     }));
-    for k in ["lifecycle.delete_of_live", "lifecycle.cascade_delete", "lifecycle.revive_accepted_from_recycled", "lifecycle.membership_to_restore", "lifecycle.dependent_to_restore", "lifecycle.several_entries_revived_by_one_request", "lifecycle.membership_to_restore_in_multi_entry_revive", "lifecycle.purge_tombstoned", "lifecycle.purge_kept", "lifecycle.tombstone_reaped", "lifecycle.tombstone_kept", "lifecycle.revive_of_tombstone_refused"] {
+    c26_scripted(&mut run, &args);
+    for k in ["lifecycle.delete_of_live", "lifecycle.cascade_delete", "lifecycle.revive_accepted_from_recycled", "lifecycle.membership_to_restore", "lifecycle.dependent_to_restore", "lifecycle.several_entries_revived_by_one_request", "lifecycle.membership_to_restore_in_multi_entry_revive", "lifecycle.live_group_shared_by_several_revived_entries", "lifecycle.purge_tombstoned", "lifecycle.purge_kept", "lifecycle.tombstone_reaped", "lifecycle.tombstone_kept", "lifecycle.revive_of_tombstone_refused"] {
         let ok = run.acc.get(k) > 0;
         run.require(ok, &format!("{k} never observed"));
     }
     run.finish();
+}
+
+/// Scripted enumeration for the revive step: two persons, the certificate entry that depends on the
+/// first person, two groups; EVERY assignment of the three entries to the two groups (64), both
+/// delete orders, the second group deleted or not before the revive, and four revive requests (one
+/// entry / two entries in one request, with the cascade-deleted certificate coming back with its
+/// person). Same per-operation oracle as the random part.
+fn c26_scripted(run: &mut Run, args: &Args) {
+    use kvcore::rng::mix;
+    use kvcore::Rng;
+    let (p0, c0, p1) = (Obj(Kind::Person, 0), Obj(Kind::Cert, 0), Obj(Kind::Person, 1));
+    let (g0, g1) = (Obj(Kind::Group, 0), Obj(Kind::Group, 1));
+    let mut cases: Vec<(u8, bool, bool, u8)> = Vec::new();
+    for memb in 0..64u8 {
+        for p1_first in [false, true] {
+            for g1_deleted in [false, true] {
+                for rv in 0..4u8 {
+                    cases.push((memb, p1_first, g1_deleted, rv));
+                }
+            }
+        }
+    }
+    let cases = &cases;
+    let seed = args.seed;
+    kvcore::run::install_panic_hook();
+    run.parallel(args.workers, |wk, n| {
+        let mut acc = Acc::new();
+        let rt = srv::rt();
+        let mut i = wk;
+        while i < cases.len() {
+            let (memb, p1_first, g1_deleted, rv) = cases[i];
+            let res = std::panic::catch_unwind(std::panic::AssertUnwindSafe(|| {
+                rt.block_on(async {
+                    let mut rng = Rng::new(mix(seed, 2626, i as u64));
+                    let cfg = WorldCfg { replicas: 1, level: kanidmd_lib::constants::DOMAIN_TGT_LEVEL, unique_names: true, skew: false, file_backed: None };
+                    let mut w = World::new(&cfg, &mut rng).await;
+                    let mut ops: Vec<Op> = vec![
+                        Op::Create { r: 0, obj: p0, name: 0, bad_spn: false },
+                        Op::Create { r: 0, obj: p1, name: 1, bad_spn: false },
+                        Op::Create { r: 0, obj: c0, name: 2, bad_spn: false },
+                        Op::Create { r: 0, obj: g0, name: 3, bad_spn: false },
+                        Op::Create { r: 0, obj: g1, name: 4, bad_spn: false },
+                    ];
+                    for (k, e) in [p0, c0, p1].iter().enumerate() {
+                        for (b, g) in [g0, g1].iter().enumerate() {
+                            if memb >> (2 * k + b) & 1 == 1 {
+                                ops.push(Op::AddMember { r: 0, grp: *g, member: e.uuid() });
+                            }
+                        }
+                    }
+                    if p1_first {
+                        ops.push(Op::Delete { r: 0, obj: p1 });
+                        ops.push(Op::Delete { r: 0, obj: p0 });
+                    } else {
+                        ops.push(Op::Delete { r: 0, obj: p0 });
+                        ops.push(Op::Delete { r: 0, obj: p1 });
+                    }
+                    if g1_deleted {
+                        ops.push(Op::Delete { r: 0, obj: g1 });
+                    }
+                    ops.push(match rv {
+                        0 => Op::Revive { r: 0, obj: p0, also: None },
+                        1 => Op::Revive { r: 0, obj: p0, also: Some(p1) },
+                        2 => Op::Revive { r: 0, obj: p1, also: Some(p0) },
+                        _ => Op::Revive { r: 0, obj: p1, also: Some(c0) },
+                    });
+                    let mut sigs = BTreeSet::new();
+                    for op in ops {
+                        let rec = w.apply(op).await;
+                        acc.count(&format!("scripted.op.{}.{}", rec.op.kind(), if rec.ok { "ok" } else { "err" }));
+                        for (sig, why) in lifecycle(&w, &rec, &mut acc) {
+                            if sigs.insert(sig.clone()) {
+                                acc.violation(&format!("{sig}/scripted"), serde_json::json!({"memberships_bits_p0g0_p0g1_c0g0_c0g1_p1g0_p1g1": format!("{memb:06b}"), "p1_deleted_first": p1_first, "g1_deleted_before_revive": g1_deleted, "revive_request": rv, "why": why, "history_tail": w.history_json(30)}));
+                            }
+                        }
+                    }
+                    acc.eval();
+                    acc.nontrivial_distinct();
+                })
+            }));
+            if res.is_err() {
+                let (loc, msg) = kvcore::run::take_last_panic().unwrap_or_default();
+                if kvcore::run::panic_in_kanidm(&loc) || loc.contains("/.cargo/registry/") {
+                    acc.count("scripted.cross.panic_outside_harness");
+                    acc.observe("kanidm_debug_assertions_fired", &format!("{loc}: {msg}"));
+                } else {
+                    acc.inconclusive(&format!("harness panic at {loc}: {msg}"));
+                }
+            }
+            i += n;
+        }
+        acc
+    });
+    run.extra("scripted_revive_cases", serde_json::json!({"executed": cases.len(), "dimensions": "64 membership assignments x 2 delete orders x group deleted or not x 4 revive requests"}));
 }
 
 // ------------------------------------------------------------------------------------------- C09
